@@ -272,6 +272,8 @@ def _fixed_element_accumulators(f):
 
 
 def run(ctx):
+    from . import c03 as _c03
+    _c03.rule_mass_parameter(ctx, _c03.rule_scope(ctx))   # R03.3: every caller hands the Kepler solver G times a mass (one factor of G)
     rule_central_body_sums(ctx)
     rule_jerk_homogeneity(ctx)
     from . import c08
